@@ -905,118 +905,141 @@ theorem outwardFaceNormal_facing (b : Aabb K) (ray : Ray3 K) (t : K) (n : V3 K) 
   rcases h with ⟨rfl, h1, h2⟩ | ⟨rfl, h1, h2⟩ | ⟨rfl, h1, h2⟩ | ⟨rfl, h1, h2⟩ | ⟨rfl, h1, h2⟩ | ⟨rfl, h1, h2⟩ <;>
     simp only [V3.normSq, V3.dot] <;> refine ⟨by ring, by linarith, ?_⟩ <;> simp [h2]
 
-/-- **Aabb::cast_local_ray_and_get_normal (`ray_aabb` over `clip_aabb_line`), `solid = true`.** Non-degenerate box,
-`0 ≤ max_toi ≤ Real::MAX`, any direction (zero components allowed): whenever the call returns (does not hit the
-`normal[-1]` panic of a zero direction), the reported time is the first parameter of `[0, max_toi]` in the box. -/
-theorem aabb_normalCast_solid_firstHit (big : K) (b : Aabb K) (ray : Ray3 K) (max : K) (hv : AabbStrict b)
-    (hmax0 : 0 ≤ max) (hmaxb : max ≤ big) (r : Option (Hit3 K)) :
+/-- **`clip_aabb_line`, full line.** Non-degenerate box, `big = Real::MAX ≥ 0`: `Some(near, far)` ⇒ on `[−big, big]` the
+line `o + s·d` is in the box exactly for `near.t ≤ s ≤ far.t` (and `near.t ≤ far.t`) — also when the box lies entirely
+behind the origin (`far.t < 0`), which the function now reports instead of bailing out; `None` ⇒ no parameter of
+`[−big, big]` is in the box (the line misses it). -/
+theorem clip_aabb_line_spec (big : K) (b : Aabb K) (ray : Ray3 K) (hv : AabbStrict b) (hbig : 0 ≤ big) :
     letI := fieldNum K sq
-    b.castLocalRayAndGetNormal big ray max true = some r → FirstHit (AabbMem b) (rayPt sq ray) max (r.map (·.toi)) := by
-  intro hres
+    match clipAabbLine big b ray.o ray.d with
+    | .some near far => near.t ≤ far.t ∧
+        ∀ s, -big ≤ s → s ≤ big → (AabbMem b (rayPt sq ray s) ↔ near.t ≤ s ∧ s ≤ far.t)
+    | .none => ∀ s, -big ≤ s → s ≤ big → ¬ AabbMem b (rayPt sq ray s) := by
+  rcases clip_cases sq big b ray hv hbig with ⟨st, inv, hclip⟩ | ⟨hclip, hno⟩
+  · rw [hclip]; exact ⟨inv.le, inv.iff⟩
+  · rw [hclip]; exact hno
+
+/-- **Aabb::cast_local_ray_and_get_normal (`ray_aabb` over `clip_aabb_line`), `solid = true`.** Non-degenerate box,
+`0 ≤ max_toi ≤ Real::MAX`, any direction (zero components, even the zero vector, allowed — the function no longer
+panics): the reported time is the first parameter of `[0, max_toi]` in the box; `None` (which now includes the
+`far < 0` test made by `ray_aabb` itself) ⇒ the segment misses the box. -/
+theorem aabb_normalCast_solid_firstHit (big : K) (b : Aabb K) (ray : Ray3 K) (max : K) (hv : AabbStrict b)
+    (hmax0 : 0 ≤ max) (hmaxb : max ≤ big) :
+    letI := fieldNum K sq
+    FirstHit (AabbMem b) (rayPt sq ray) max ((b.castLocalRayAndGetNormal big ray max true).map (·.toi)) := by
   have hbig := le_trans hmax0 hmaxb
-  rcases aabbN_cases sq big b ray max true hv hbig r hres with ⟨st, inv, _, hc⟩ | ⟨rfl, hno⟩
+  rcases aabbN_cases sq big b ray max true hv hbig with ⟨st, inv, hc⟩ | ⟨hr, hno⟩
   · have inR : ∀ s, 0 ≤ s → s ≤ max → (AabbMem b (rayPt sq ray s) ↔ st.tmin ≤ s ∧ s ≤ st.tmax) := fun s h1 h2 =>
       inv.iff s (le_trans (neg_nonpos.2 hbig) h1) (le_trans h2 hmaxb)
-    rcases hc with ⟨h1, _, h, rfl, ht⟩ | ⟨_, hs, _⟩ | ⟨_, hs, _⟩ | ⟨h1, h2, h, rfl, ht, _⟩ | ⟨h1, h2, rfl⟩
-    · simp only [Option.map_some, ht]
-      exact ⟨le_refl _, hmax0, (inR 0 (le_refl _) hmax0).2 ⟨h1.le, inv.nn⟩, fun s a c => absurd c (not_lt.2 a)⟩
+    rcases hc with ⟨h0, hr⟩ | ⟨h0, h1, _, h, hr, ht⟩ | ⟨_, _, hs, _⟩ | ⟨_, _, hs, _⟩ | ⟨h0, h1, h2, h, hr, ht, _⟩ | ⟨h0, h1, h2, hr⟩
+    · rw [hr]
+      intro s a c hm
+      have := (inR s a c).1 hm
+      linarith [this.2]
+    · rw [hr]; simp only [Option.map_some, ht]
+      exact ⟨le_refl _, hmax0, (inR 0 (le_refl _) hmax0).2 ⟨h1.le, h0⟩, fun s a c => absurd c (not_lt.2 a)⟩
     · cases hs
     · cases hs
-    · simp only [Option.map_some, ht]
+    · rw [hr]; simp only [Option.map_some, ht]
       refine ⟨h1, h2, (inR _ h1 h2).2 ⟨le_refl _, inv.le⟩, fun s a c hm => ?_⟩
       have := (inR s a (le_trans c.le h2)).1 hm
       linarith [this.1]
-    · intro s a c hm
+    · rw [hr]
+      intro s a c hm
       have := (inR s a c).1 hm
       linarith [this.1]
-  · exact fun s a c => hno s a (le_trans c hmaxb)
+  · rw [hr]
+    exact fun s a c => hno s (le_trans (neg_nonpos.2 hbig) a) (le_trans c hmaxb)
 
 /-- **Aabb::cast_local_ray_and_get_normal, origin outside the box (both `solid` flags).** First hit as above; a reported
 hit has `t > 0`, and its normal is either the outward unit normal `∓e_i` of a face plane through the hit point with the
 ray moving against it (so `n·d < 0`), or — when two slabs tie (edge/corner hit, `near_diag`) — the code's choice
 `−dir/|dir|`. -/
 theorem aabb_normalCast_outside (big : K) (b : Aabb K) (ray : Ray3 K) (max : K) (solid : Bool) (hv : AabbStrict b)
-    (hmax0 : 0 ≤ max) (hmaxb : max ≤ big) (r : Option (Hit3 K)) :
+    (hmax0 : 0 ≤ max) (hmaxb : max ≤ big) :
     letI := fieldNum K sq
     ¬ AabbMem b ray.o →
-    b.castLocalRayAndGetNormal big ray max solid = some r →
-    FirstHit (AabbMem b) (rayPt sq ray) max (r.map (·.toi)) ∧
-    ∀ h, r = some h → 0 < h.toi ∧ (OutwardFaceNormal sq b ray h.toi h.n ∨ h.n = ray.d.normalize.neg) := by
-  intro hout hres
+    FirstHit (AabbMem b) (rayPt sq ray) max ((b.castLocalRayAndGetNormal big ray max solid).map (·.toi)) ∧
+    ∀ h, b.castLocalRayAndGetNormal big ray max solid = some h →
+      0 < h.toi ∧ (OutwardFaceNormal sq b ray h.toi h.n ∨ h.n = ray.d.normalize.neg) := by
+  intro hout
   have hbig := le_trans hmax0 hmaxb
-  rcases aabbN_cases sq big b ray max solid hv hbig r hres with ⟨st, inv, hpan, hc⟩ | ⟨rfl, hno⟩
+  rcases aabbN_cases sq big b ray max solid hv hbig with ⟨st, inv, hc⟩ | ⟨hr, hno⟩
   · have inR : ∀ s, 0 ≤ s → s ≤ max → (AabbMem b (rayPt sq ray s) ↔ st.tmin ≤ s ∧ s ≤ st.tmax) := fun s h1 h2 =>
       inv.iff s (le_trans (neg_nonpos.2 hbig) h1) (le_trans h2 hmaxb)
-    -- origin outside ⇒ tmin > 0
-    have hpos : 0 < st.tmin := by
+    -- origin outside ⇒ not (tmin ≤ 0 ≤ tmax)
+    have hpos : 0 ≤ st.tmax → 0 < st.tmin := by
+      intro h0
       by_contra hc'; push Not at hc'
       apply hout
-      have := (inR 0 (le_refl _) hmax0).2 ⟨hc', inv.nn⟩
+      have := (inR 0 (le_refl _) hmax0).2 ⟨hc', h0⟩
       rwa [rayPt_zero] at this
-    rcases hc with ⟨h1, _⟩ | ⟨h1, _⟩ | ⟨h1, _⟩ | ⟨h1, h2, h, rfl, ht, hn⟩ | ⟨h1, h2, rfl⟩
-    · linarith
-    · linarith
-    · linarith
-    · refine ⟨?_, ?_⟩
+    rcases hc with ⟨h0, hr⟩ | ⟨h0, h1, _⟩ | ⟨h0, h1, _⟩ | ⟨h0, h1, _⟩ | ⟨h0, h1, h2, h, hr, ht, hn⟩ | ⟨h0, h1, h2, hr⟩
+    · rw [hr]
+      exact ⟨fun s a c hm => by have := (inR s a c).1 hm; linarith [this.2], fun h hh => by cases hh⟩
+    · linarith [hpos h0]
+    · linarith [hpos h0]
+    · linarith [hpos h0]
+    · rw [hr]
+      refine ⟨?_, ?_⟩
       · simp only [Option.map_some, ht]
         refine ⟨h1, h2, (inR _ h1 h2).2 ⟨le_refl _, inv.le⟩, fun s a c hm => ?_⟩
         have := (inR s a (le_trans c.le h2)).1 hm
         linarith [this.1]
       · intro h' hh; cases hh
-        refine ⟨by rw [ht]; exact hpos, ?_⟩
+        refine ⟨by rw [ht]; exact hpos h0, ?_⟩
         rw [hn, ht]
         cases hdiag : st.nearDiag with
         | true => right; simp only [clipNearN, hdiag, if_true]
         | false =>
           left
-          have hside := hpan.1 hdiag
           have hok : NearOK b ray st.nearSide st.tmin := by
-            rcases inv.nside with ⟨h0, _⟩ | h
-            · exact absurd h0 hside
+            rcases inv.nside with ⟨_, hm⟩ | h
+            · have := hpos h0; rw [hm] at this; linarith
             · exact h
           exact clipNearN_outward sq b ray st hdiag hok
-    · exact ⟨fun s a c hm => by have := (inR s a c).1 hm; linarith [this.1], fun h hh => by cases hh⟩
-  · exact ⟨fun s a c => hno s a (le_trans c hmaxb), fun h hh => by cases hh⟩
+    · rw [hr]
+      exact ⟨fun s a c hm => by have := (inR s a c).1 hm; linarith [this.1], fun h hh => by cases hh⟩
+  · rw [hr]
+    exact ⟨fun s a c => hno s (le_trans (neg_nonpos.2 hbig) a) (le_trans c hmaxb), fun h hh => by cases hh⟩
 
 /-- **Aabb::cast_local_ray_and_get_normal, `solid = false`, origin in the box.** `Some h` ⇒ `h.toi ≤ max_toi`, the point
 is in the box, and either `h.toi = 0` (origin on the boundary, ray entering: this form reports the origin itself) or
 `h.toi` is the exit parameter (`[0,toi]` inside, nothing of `(toi, Real::MAX]` inside). `None` ⇒ the whole segment
-`[0,max_toi]` stays in the box (exit beyond `max_toi`) — the behaviour the time-only form lacked on the pinned tree. -/
+`[0,max_toi]` stays in the box (exit beyond `max_toi`). -/
 theorem aabb_normalCast_nonsolid_inside (big : K) (b : Aabb K) (ray : Ray3 K) (max : K) (hv : AabbStrict b)
-    (hmax0 : 0 ≤ max) (hmaxb : max ≤ big) (r : Option (Hit3 K)) :
+    (hmax0 : 0 ≤ max) (hmaxb : max ≤ big) :
     letI := fieldNum K sq
     AabbMem b ray.o →
-    b.castLocalRayAndGetNormal big ray max false = some r →
-    match r with
+    match b.castLocalRayAndGetNormal big ray max false with
     | some h => h.toi ≤ max ∧ AabbMem b (rayPt sq ray h.toi) ∧
         (h.toi = 0 ∨ ((∀ s, 0 ≤ s → s ≤ h.toi → AabbMem b (rayPt sq ray s)) ∧
                       ∀ s, h.toi < s → s ≤ big → ¬ AabbMem b (rayPt sq ray s)))
     | none => ∀ s, 0 ≤ s → s ≤ max → AabbMem b (rayPt sq ray s) := by
-  intro hin hres
+  intro hin
   have hbig := le_trans hmax0 hmaxb
-  rcases aabbN_cases sq big b ray max false hv hbig r hres with ⟨st, inv, _, hc⟩ | ⟨rfl, hno⟩
+  have hm0 : AabbMem b (rayPt sq ray 0) := by rw [rayPt_zero]; exact hin
+  rcases aabbN_cases sq big b ray max false hv hbig with ⟨st, inv, hc⟩ | ⟨hr, hno⟩
   · have inB : ∀ s, 0 ≤ s → s ≤ big → (AabbMem b (rayPt sq ray s) ↔ st.tmin ≤ s ∧ s ≤ st.tmax) := fun s h1 h2 =>
       inv.iff s (le_trans (neg_nonpos.2 hbig) h1) h2
-    have h0 : st.tmin ≤ 0 := by
-      have hm : AabbMem b (rayPt sq ray 0) := by rw [rayPt_zero]; exact hin
-      exact ((inB 0 (le_refl _) hbig).1 hm).1
-    rcases hc with ⟨_, hs, _⟩ | ⟨h1, _, h2, h, rfl, ht, _⟩ | ⟨h1, _, h2, rfl⟩ | ⟨h1, h2, h, rfl, ht, _⟩ | ⟨h1, h2, rfl⟩
+    have h00 := (inB 0 (le_refl _) hbig).1 hm0
+    rcases hc with ⟨h0, _⟩ | ⟨_, _, hs, _⟩ | ⟨h0, h1, _, h2, h, hr, ht, _⟩ | ⟨h0, h1, _, h2, hr⟩ | ⟨h0, h1, h2, h, hr, ht, _⟩ | ⟨h0, h1, h2, hr⟩
+    · linarith [h00.2]
     · cases hs
-    · simp only [ht]
-      refine ⟨h2, (inB _ inv.nn inv.hi).2 ⟨inv.le, le_refl _⟩, Or.inr ⟨fun s a c => ?_, fun s a c hm => ?_⟩⟩
-      · exact (inB s a (le_trans c inv.hi)).2 ⟨le_trans h0 a, c⟩
-      · have := (inB s (le_trans inv.nn a.le) c).1 hm
+    · rw [hr]; simp only [ht]
+      refine ⟨h2, (inB _ h0 inv.hi).2 ⟨inv.le, le_refl _⟩, Or.inr ⟨fun s a c => ?_, fun s a c hm => ?_⟩⟩
+      · exact (inB s a (le_trans c inv.hi)).2 ⟨le_trans h00.1 a, c⟩
+      · have := (inB s (le_trans h0 a.le) c).1 hm
         linarith [this.2]
-    · intro s a c
-      exact (inB s a (le_trans c hmaxb)).2 ⟨le_trans h0 a, le_trans c h2.le⟩
-    · have e : st.tmin = 0 := le_antisymm h0 h1
-      simp only [ht, e]
-      refine ⟨hmax0, ?_, Or.inl trivial⟩
-      rw [rayPt_zero]; exact hin
-    · linarith
+    · rw [hr]
+      intro s a c
+      exact (inB s a (le_trans c hmaxb)).2 ⟨le_trans h00.1 a, le_trans c h2.le⟩
+    · have e : st.tmin = 0 := le_antisymm h00.1 h1
+      rw [hr]; simp only [ht, e]
+      exact ⟨hmax0, hm0, Or.inl trivial⟩
+    · linarith [h00.1]
   · exfalso
-    exact hno 0 (le_refl _) hbig (by rw [rayPt_zero]; exact hin)
-
+    exact hno 0 (neg_nonpos.2 hbig) hbig hm0
 
 /-- the edge/corner ("diag") normal `−dir/|dir|` is a unit vector facing the ray (lawful square root, `dir ≠ 0`) -/
 theorem diag_normal_facing (hs : LawfulSqrt sq) (d : V3 K) :
